@@ -63,7 +63,7 @@ def sl_specs(draw, tier):
             "settings": draw(st.sampled_from([None, {"force_constants": True}, {"force_constants": False}, {"force_sets": False},
                                               {"born_effective_charge": False, "dielectric_constant": False}, {"displacements": False}])),
             "mag": draw(st.sampled_from([1.0, 1.0, 1e-9, 1e4, 1e7])), "load_compact": draw(st.booleans()),
-            "prior_light_save": draw(st.booleans())}
+            "prior_light_save": draw(st.booleans()), "set_masses": draw(st.sampled_from([False, False, True]))}
 
 
 def build_phonopy(spec):
@@ -122,6 +122,9 @@ def build_phonopy(spec):
         except ValueError:
             return None
         ph.nac_params = {"born": Z, "dielectric": eps, "factor": 14.4, "method": spec["nac"]}
+    if spec.get("set_masses") and mag is None:
+        # e.g. an isotope substitution made on the finished object
+        ph.masses = 1.0 + np.round(60 * rng_from(spec["key"], 23).random(len(ph.primitive)), 4)
     return ph
 
 
@@ -256,7 +259,7 @@ def run_save_load(spec):
     nsec = (spec["dataset"] != "none") + (spec["fc"] != "none") + (spec["nac"] != "none")
     return Out(ok=True, nontrivial=nsec >= 2, classes=["smat:" + ("diag" if spec.get("smat") is None or not np.any(np.array(spec["smat"]) - np.diag(np.diag(spec["smat"]))) else
                                                                  ("nonsym" if np.any(np.array(spec["smat"]) != np.array(spec["smat"]).T) else "sym_nondiag")),
-                                                       "ds:" + spec["dataset"], "fc:" + spec["fc"], "nac:" + spec["nac"], "calc:%s" % spec["calc"],
+                                                       "masses_set_later" if spec.get("set_masses") else "masses_as_built", "ds:" + spec["dataset"], "fc:" + spec["fc"], "nac:" + spec["nac"], "calc:%s" % spec["calc"],
                                                        "mag:%g" % spec["mag"], "xz" if spec["compression"] else "plain", "labels" if spec["labels"] else "plain_symbols"])
 
 
